@@ -24,8 +24,10 @@ class ModelError(Exception):
 
 
 def arity_ok(t: str, k: int) -> bool:
-    if t == 'INPUT' or t in CONST:
+    if t == 'INPUT':
         return k == 0
+    if t in CONST:
+        return True  # cirbo's constant operators accept (and ignore) any operands; the generators rely on it
     if t in UNARY:
         return k == 1
     if t in NARY:
